@@ -5,6 +5,7 @@ import (
 	"encoding/binary"
 	"fmt"
 	"io"
+	"strings"
 	"testing/iotest"
 
 	"github.com/tdewolff/parse/v2"
@@ -45,6 +46,8 @@ var c19OBackends = []c19OBackend{
 	{name: "readerat", kind: c19BkReaderAt, variant: "dataerr", seeks: true},
 	{name: "reader", kind: c19BkPlain, variant: "zeroreads"},
 	{name: "readseeker", kind: c19BkSeeker, variant: "zeroreads", seeks: true},
+	{name: "reader", kind: c19BkPlain, variant: "zeroreads99"},
+	{name: "readseeker", kind: c19BkSeeker, variant: "zeroreads99", seeks: true},
 }
 
 func (b c19OBackend) label() string {
@@ -74,6 +77,12 @@ func (b c19OBackend) open(data []byte, n int64) (*parse.BinaryReader, func()) {
 		ewl = true
 	case "zeroreads":
 		sched = []int{2, 0, 1, 0, 3}
+	case "zeroreads99": // 99 consecutive (0, nil) reads before every byte: all of them must be retried
+		runs := make([]int, len(data)+4)
+		for i := range runs {
+			runs[i] = 99
+		}
+		sched = c19EmptyRuns(runs, []int{1})
 	}
 	if b.neg {
 		n = -1
@@ -162,6 +171,26 @@ func c19Oracle(r *Rng, tier string, rep *Report) {
 	}
 	for it := 0; it < iters; it++ {
 		c19OracleSeekReadAt(r, rep)
+	}
+	// give-up: the 100th consecutive (0, nil) read ends the request with io.ErrNoProgress (zero value, nothing
+	// consumed); the next request starts counting again and succeeds
+	for _, kind := range []int{c19BkPlain, c19BkSeeker} {
+		for _, run := range []int{99, 100, 150} {
+			br, cleanup, err := c19OpenBackend(kind, 2, []byte{1, 2}, c19EmptyRuns([]int{run}, []int{2}), false, false)
+			if err != nil {
+				panic(err)
+			}
+			v1, e1, p1 := br.ReadUint16(), br.Err(), br.Pos()
+			ok := v1 == 258 && e1 == nil && p1 == 2
+			if run >= 100 {
+				ok = v1 == 0 && e1 == io.ErrNoProgress && p1 == 0
+			}
+			if !ok {
+				rep.Violate(fmt.Sprintf("no-progress/%s/%d", c19BkNames[kind], run), fmt.Sprintf("%s: %d consecutive (0, nil) reads then 2 bytes: ReadUint16 = %d, Err = %v, Pos = %d", c19BkNames[kind], run, v1, e1, p1), map[string]interface{}{"run": run})
+			}
+			cleanup()
+			rep.Eval(fmt.Sprintf("no-progress:%d:%d", kind, run), true, "no-progress")
+		}
 	}
 	// NewBinaryReaderReader hands a *BinaryReader back unchanged (position, error and byte order kept)
 	{
@@ -278,7 +307,7 @@ func c19CheckReadBack(rep *Report, b c19OBackend, little bool, vals []c19Tval, d
 			key := fmt.Sprintf("read-panic/%s/%s", lab, opname)
 			if !fits && sz == 1 && v.typ != 10 {
 				key = fmt.Sprintf("read8-past-end-panic/%s/%s", b.name, opname)
-			} else if b.variant == "zeroreads" && sz == 1 && v.typ != 10 {
+			} else if strings.HasPrefix(b.variant, "zeroreads") && sz == 1 && v.typ != 10 {
 				key = fmt.Sprintf("zero-length-read-panic/%s/%s", b.name, opname)
 			}
 			rep.Violate(key, fmt.Sprintf("%s: Read%s at pos %d of %d bytes panics: %v", lab, opname, pos, len(data), p), replay(fmt.Sprintf("read #%d panics", i)))
@@ -312,7 +341,7 @@ func c19CheckReadBack(rep *Report, b c19OBackend, little bool, vals []c19Tval, d
 		}
 		err := br.Err()
 		// deviations of the underlying stream's corner cases, reported under one stable key each
-		if b.variant == "zeroreads" && c19BinErrKind(err) == 4 {
+		if strings.HasPrefix(b.variant, "zeroreads") && (c19BinErrKind(err) == 4 || c19BinErrKind(err) == 9) {
 			rep.Violate("zero-length-read/"+b.name, fmt.Sprintf("%s: the underlying reader returned (0, nil) once; Read%s then fails with %v", lab, opname, err), replay("zero-length read"))
 			return
 		}
@@ -375,9 +404,6 @@ func c19OracleSeekReadAt(r *Rng, rep *Report) {
 		}
 	}
 	for _, b := range c19OBackends {
-		if b.variant == "zeroreads" {
-			continue
-		}
 		lab := b.label()
 		br, cleanup := b.open(data, L)
 		ref := bytes.NewReader(data)
